@@ -38,7 +38,11 @@ type Check struct {
 	// Budget is the soft wall-clock budget in seconds per tier after which shards
 	// stop early and report exhaustive:false (never a violation).
 	QuickBudget, ThoroughBudget int
-	Run                         func(c *Ctx)
+	// Shards is the number of worker processes (0 = 16); MaxProcs is GOMAXPROCS
+	// inside each (0 = 2). A check that needs one shared state table runs as a
+	// single shard with many threads.
+	Shards, MaxProcs int
+	Run              func(c *Ctx)
 	// Replay re-executes one recorded case without any explorer and reports
 	// whether it violates the property.
 	Replay func(caseJSON json.RawMessage) (bool, string)
@@ -294,7 +298,10 @@ func loadKnown() []knownFinding {
 func Main(ck *Check, tier string) int {
 	t0 := time.Now()
 	n := 16
-	if v := os.Getenv("VERIF_SHARDS"); v != "" {
+	if ck.Shards > 0 {
+		n = ck.Shards
+	}
+	if v := os.Getenv("VERIF_SHARDS"); v != "" && ck.Shards == 0 {
 		if k, err := strconv.Atoi(v); err == nil && k > 0 {
 			n = k
 		}
@@ -331,7 +338,11 @@ func Main(ck *Check, tier string) int {
 		out := filepath.Join(work, fmt.Sprintf("shard-%s-%d.json", ck.ID, i))
 		os.Remove(out)
 		cmd := exec.Command(self, "shard", ck.ID, tier, strconv.Itoa(i), strconv.Itoa(n), out)
-		cmd.Env = append(os.Environ(), "GOMAXPROCS=2")
+		mp := 2
+		if ck.MaxProcs > 0 {
+			mp = ck.MaxProcs
+		}
+		cmd.Env = append(os.Environ(), "GOMAXPROCS="+strconv.Itoa(mp))
 		if trace != "" {
 			cmd.Env = append(cmd.Env, "VERIF_TRACE="+trace)
 		}
